@@ -13,6 +13,7 @@ RULE = ("case = (device: LiteDRAMFIFO with bypass and stream:port width ratio 1/
         "(ONE realistic slave serving the write and the read port in acceptance order: per-port command stall schedules, strobe latencies, outstanding limit). "
         "non-trivial = write AND read pointer wrapped >= 2 times (bypass builds: and the mode FSM changed state >= 2 times), or ctrl.level reached depth; "
         "distinct = distinct (device, stimulus) digests")
+REQUIRED_CLASSES = ["write_pointer_wrapped>=2", "read_pointer_wrapped>=2", "level_reached_depth", "mode_changed>=2", "state_DRAM", "raw"]
 ASSUMPTIONS = ["the realistic slave (lib/native.py) only shows behaviour the real crossbar can show: one-cycle wdata.ready / rdata.valid strobes regardless of valid/ready, >= 3 / 5 cycles after acceptance; "
                "it serves both ports of the FIFO from one acceptance-ordered queue (the ordering the whole core guarantees, property C01)",
                "the producer keeps a word offered unchanged until it is taken; the consumer's ready may change freely",
